@@ -316,9 +316,11 @@ From Proofs Require Import RecvHistP MsgRecvP MsgSendP MsgFragP MsgNetP.
          (truthful) a message labelled j carries the (type, payload) processed under j before (labels
                     are the sender's message indices: a RetrySender copy is byte-identical — part of
                     the sender invariant below — and different messages have different indices);
-         (no-raise) processing the datagram raises no exception (recv_msgs stops at the first
-                    exception: a handshake message whose verification fails hides the messages behind
-                    it in the same datagram — 5m.7 shows this hypothesis cannot be dropped).
+         (no-raise) if the datagram carries a handshake-typed message (has_hs): processing it raises
+                    no exception (recv_msgs stops at the first exception: a handshake message whose
+                    verification fails hides the messages behind it in the same datagram — 5m.7 shows
+                    this hypothesis cannot be dropped).  Datagrams of A without handshake messages never
+                    raise: part of the invariant is that every fragment A emits carries its 6-byte header.
       The joint invariant J3 S K M = Net2's J + Inc +
         sender   every message A keeps (queue, re-send store) and every RetrySender it has registered
                  satisfies QmS: a user callback IUser id sits on an APP message whose payload p was
@@ -366,6 +368,13 @@ Theorem C07_receiver_delivers : forall ws js c now orcs st c' o,
        In (w_payload w) (map snd extra) \/ exists j, In (j, content w) (snd st)).
 Proof. exact recv_msgs_deliver. Qed.
 Print Assumptions C07_receiver_delivers.
+
+(*      ... and a datagram without handshake-typed messages whose fragments carry their 6-byte header
+      is processed without exception (so (no-raise) speaks about handshake-carrying datagrams only) *)
+Theorem C07_no_handshake_no_exception : forall ws c now orcs c' o,
+  has_hs ws = false -> Forall frag_ok ws -> recv_msgs c now ws orcs = (c', o) -> raised o = false.
+Proof. exact recv_msgs_noraise. Qed.
+Print Assumptions C07_no_handshake_no_exception.
 
 (*      Fragmented sends: a fragment-sender context in pending_fragments holding user callback id only
       ever comes from a send() of an oversized payload with that id (PFInv: holds initially, preserved
@@ -459,7 +468,7 @@ Proof.
       repeat match goal with |- _ /\ _ => split | |- True => exact I end.
       all: unfold msg_ev; cbn [fst snd].
       all: msg_goal.
-      all: try (split; [vm_compute; reflexivity|split; [|intros _; vm_compute; reflexivity]]).
+      all: try (split; [vm_compute; reflexivity|split; [|intros _ _; vm_compute; reflexivity]]).
       all: vm_compute; mwf_goal. }
   vm_compute. repeat split; auto 10.
 Qed.
@@ -572,7 +581,7 @@ Proof.
   unfold short3_ev. cbn [fst snd auth_ev ev_open2].
   repeat match goal with |- _ /\ _ => split | |- True => exact I end;
     try (match goal with |- _ <= _ => vm_compute; discriminate end).
-  all: try (msg_goal; try (split; vm_compute; reflexivity)).
+  all: try (msg_goal; try (split; [vm_compute; reflexivity|intros _; vm_compute; reflexivity])).
   all: ev_goal. all: fin_goal.
 Qed.
 (* ---- end block: message level ---- *)
